@@ -199,6 +199,9 @@ def contexts(chk, dom):
         ('extra == "e1"', {}, "metadata", False), ('extra != "e1"', {}, "metadata", True),
         ('extra == "E_1"', {"extra": "e-1"}, "metadata", True), ('extra == "e.1"', {"extra": {"E_1", "x"}}, "metadata", True),
         ('extra == "e1"', {"extra": None}, "metadata", False), ('extra == "e__1"', {"extra": "e-1"}, "metadata", True),
+        ('extra == "e-1"', {"extra": "e--1"}, "metadata", True), ('extra != "e-1"', {"extra": {"x", "e---1"}}, "metadata", False),
+        ('"d-ev" in extras', {"extras": {"d--ev"}}, "lock_file", True), ('"d-ev" not in dependency_groups', {"dependency_groups": {"d-_-ev"}}, "lock_file", False),
+        ('extra == "e--1"', {"extra": "e-1"}, "metadata", True),
         ('extra == "e-.-1"', {"extra": {"E_1"}}, "metadata", True), ('extra != "E.1"', {"extra": "e_1"}, "metadata", False),
         ('"dev" in extras', {}, "lock_file", False), ('"dev" not in extras', {}, "lock_file", True),
         ('"D_ev" in extras', {"extras": {"d-ev"}}, "lock_file", True), ('"docs" in dependency_groups', {"dependency_groups": {"Docs"}}, "lock_file", True),
